@@ -42,7 +42,7 @@ func streamSTrace(c *corrOut, r *rng, n int, thorough bool) map[string]interface
 	c.emit("E p b11 n p | N | O id sp0 lo id ls0.0 fr1.0 fr1.1 id ls1.1 sp3 id ls1.0 id ls3.0 id", "rejected at 9 sp3", "selftest")
 	c.emit("E p p | N 0.0 | O id sp0 sp1 lo id ln id ls1.0 id", "rejected at 3 lo", "selftest")
 	failed := 0
-	for c.count < n && failed < 20 {
+	for c.count < n && failed < 3 { // a run without a complete history costs up to ten seconds: the `seq` scenario reports stalls
 		op, bucket := straceOnce(r.fork())
 		if op == "" {
 			failed++
